@@ -1261,7 +1261,11 @@ func wrappers(res *core.Result, log *core.Log, lib wkbadapt.Lib, s *Scenario, e 
 	if pref, _, perr := refwkb.Encode(s.Codec, prime.Norm()); perr == nil {
 		if sc := lib.NewScanner(e.m.T); sc != nil {
 			var g0 geom.T
-			if _, err0 := sc.Scan(pref); err0 == nil {
+			if gp, err0 := sc.Scan(pref); err0 == nil {
+				var firstRow *mgeom.Geom
+				if gp != nil {
+					firstRow, _ = mgeom.Observe(gp)
+				}
 				if p := core.Guard(func() { g0, err = sc.Scan(append([]byte{}, e.ref...)) }); p != "" {
 					res.Fail("panic", "panic:scan:"+core.PanicSite(p), "the second Scan into one wrapper panicked: %s", p)
 					return false
@@ -1269,6 +1273,14 @@ func wrappers(res *core.Result, log *core.Log, lib wkbadapt.Lib, s *Scenario, e 
 				res.Count("probe:wrapper-scanned-twice", 1)
 				if !check("second Scan into one "+e.m.T+" wrapper", g0, err) {
 					return false
+				}
+				// the row scanned first was handed to the caller: it stays
+				// what it was (the loop "scan, keep, scan the next row")
+				if firstRow != nil {
+					if obs, oerr := mgeom.Observe(gp); oerr != nil || mgeom.Diff(obs, firstRow) != "" {
+						res.Fail("result-aliases-input", "earlier-scan-result-changed:"+e.m.T, "the geometry obtained from the first Scan of a %s wrapper changed when the wrapper scanned the next row: now %s (%v), it was %s", e.m.T, obs, oerr, firstRow)
+						return false
+					}
 				}
 			}
 		}
